@@ -168,12 +168,13 @@ func report(w *World, prop *Property, results []*RuleResult, known *KnownFile, t
 	}
 	sort.SliceStable(bad, func(i, j int) bool { return bad[i].Key < bad[j].Key })
 	for _, o := range bad {
-		fmt.Printf("%s: [%s] %s — %s: %s\n", o.Pos, o.Rule, o.Key, o.Verdict, o.Reason)
 		if e := known.finding(prop.ID, o.Key); e != nil && o.Verdict == Violated {
-			fmt.Printf("KNOWN-FINDING: property=%s %s (%s)\n", prop.ID, e.What, o.Key)
+			// a listed finding: announced once, in its own format (not as a fresh alarm)
+			fmt.Printf("KNOWN-FINDING: property=%s %s (%s at %s)\n", prop.ID, e.What, o.Key, o.Pos)
 			knownHits++
 			continue
 		}
+		fmt.Printf("%s: [%s] %s — %s: %s\n", o.Pos, o.Rule, o.Key, o.Verdict, o.Reason)
 		nViol++
 		rp := filepath.Join(replayDir, fmt.Sprintf("%s-%s.json", prop.ID, keyHash(o.Key)))
 		b, _ := json.MarshalIndent(map[string]any{"property": prop.ID, "obligation": o, "root": w.Root, "how": "gmarslint -prop " + prop.ID + " -explain '" + o.Key + "'"}, "", " ")
